@@ -240,9 +240,7 @@ func (wtr *XMLWtr) getStringValue(p *node.Path, v val.Value) (string, error) {
 		idty := meta.FindIdentity(bases, stringValue)
 		if idty == nil {
 			err = fmt.Errorf("could not find ident '%s'", stringValue)
-		}
-		idtyMod := meta.RootModule(idty)
-		if idtyMod != leafMod {
+		} else if idtyMod := meta.RootModule(idty); idtyMod != leafMod {
 			stringValue = fmt.Sprint(idtyMod.Ident(), ":", stringValue)
 		}
 	case val.FmtString, val.FmtBinary, val.FmtAny:
